@@ -13,6 +13,7 @@ theorem MExpr.layout_eq_spec (e : MExpr) : e.layout = e.layoutSpec := by
   induction e with
   | leaf _ _ => rfl
   | leafCM _ _ => rfl
+  | part _ _ _ _ _ _ => rfl
   | range e _ _ ih => exact ih
   | reverse e _ _ ih => rfl
   | map e ih => exact ih
